@@ -32,7 +32,9 @@ def read_script(img_path, n, names):
     L = ["readlimit 30000", "loaddev %s %s" % ("mem" if n in (1760, 3520) else "file", img_path), "mountdev 1", "mount 0 1",
          "list - 0 1", "list - 1 1", "free"]
     for (p, nm) in names:
-        L += ["lookup %s %s" % (p, nm), "open 0 %s %s r" % (p, nm), "read 0 700", "seek 0 40000", "read 0 1000", "seek 0 100000", "read 0 10", "close 0",
+        # seek 500: inside the second data block on OFS (500 / 488 = 1) at an offset beyond 488 in 512-byte terms - where a chain
+        # walk that steps by the wrong block size ends up past the payload of the buffered block
+        L += ["lookup %s %s" % (p, nm), "open 0 %s %s r" % (p, nm), "read 0 700", "seek 0 500", "read 0 700", "seek 0 40000", "read 0 1000", "seek 0 100000", "read 0 10", "close 0",
               "open 0 %s %s r" % (p, nm), "read 0 200000", "close 0", "fileblocks %s %s" % (p, nm)]
     L += ["cd %s" % hexs(b"dl"), "cd %s/%s" % (hexs(b"dir"), hexs(b"sub")), "umount", "umountdev"]
     return L
